@@ -85,3 +85,123 @@ func VC13Script(at, k, bp int) {
 	cancel()
 }
 
+
+// ---- looping programs on an address-consistent bus -----------------------------
+//
+// "for every program (tight jump loops, block-instruction loops, I/O loops)":
+// a program that never ends by itself is run, the context is cancelled at the
+// at-th bus access, and Run must come back with the context's error after at
+// most the accesses of the instruction in flight (promptness counted in bus
+// accesses: no instruction makes more than 8), at a Step boundary.
+
+type vLoopDev struct {
+	bus       *vBus
+	n         int
+	at        int
+	cancel    context.CancelFunc
+	cancelled bool
+	after     int
+}
+
+func (d *vLoopDev) tick() {
+	if d.cancelled {
+		d.after++
+		vAssert("prompt-accesses", d.after <= 8)
+		if d.after > 12 {
+			vStop("still running long after the cancellation")
+		}
+	}
+	if d.n == d.at {
+		d.cancel()
+		vSettle()
+		d.cancelled = true
+	}
+	d.n++
+}
+func (d *vLoopDev) Get(a uint16) uint8    { d.tick(); return d.bus.Get(a) }
+func (d *vLoopDev) Set(a uint16, v uint8) { d.tick(); d.bus.Set(a, v) }
+func (d *vLoopDev) In(a uint8) uint8      { d.tick(); return d.bus.In(a) }
+func (d *vLoopDev) Out(a uint8, v uint8)  { d.tick(); d.bus.Out(a, v) }
+
+// kind: 0 JR -2 | 1 JP self | 2 DJNZ -2 | 3 LDIR | 4 LDDR | 5 CPIR (no match) |
+// 6 OTIR | 7 INIR | 8 IN A,(n); JR -4 | 9 OUT (n),A; JP back | 10 memory full of DD |
+// 11 memory full of FD | 12 DD FD DD FD ... | 13 NOPs
+func VC13Loop(kind, at int) {
+	var s States
+	vHavoc(&s, "s")
+	bus := vNewBus("bus")
+	pc := s.PC
+	span := uint16(at + 20) // bytes/elements the run can reach before and after the cancellation
+	notCode := func(a uint16) bool { return a-pc >= 4 } // a is outside pc..pc+3
+	switch kind {
+	case 0:
+		vPut(bus, pc, 0x18, 0xfe)
+	case 1:
+		vPut(bus, pc, 0xc3)
+		bus.Poke(pc+1, uint8(pc))
+		bus.Poke(pc+2, uint8(pc>>8))
+	case 2:
+		vPut(bus, pc, 0x10, 0xfe)
+		vAssume(s.BC.Hi > uint8(at+14))
+	case 3, 4:
+		vPut(bus, pc, 0xed, 0xb0+(kind-3)*8)
+		vAssume(s.BC.U16() > span)
+		for i := uint16(0); i < span; i++ {
+			if kind == 3 {
+				vAssume(notCode(s.DE.U16() + i))
+			} else {
+				vAssume(notCode(s.DE.U16() - i))
+			}
+		}
+	case 5:
+		vPut(bus, pc, 0xed, 0xb1)
+		vAssume(s.BC.U16() > span)
+		for i := uint16(0); i < span; i++ {
+			vAssume(bus.Peek(s.HL.U16()+i) != s.AF.Hi)
+		}
+	case 6:
+		vPut(bus, pc, 0xed, 0xb3)
+		vAssume(s.BC.Hi > uint8(at+14))
+	case 7:
+		vPut(bus, pc, 0xed, 0xb2)
+		vAssume(s.BC.Hi > uint8(at+14))
+		for i := uint16(0); i < span; i++ {
+			vAssume(notCode(s.HL.U16() + i))
+		}
+	case 8:
+		vPut(bus, pc, 0xdb, int(vU8("port")), 0x18, 0xfc)
+	case 9:
+		vPut(bus, pc, 0xd3, int(vU8("port")), 0xc3)
+		bus.Poke(pc+3, uint8(pc))
+		bus.Poke(pc+4, uint8(pc>>8))
+	case 10, 11, 12:
+		for i := uint16(0); i < 2*span; i++ {
+			b := 0xdd
+			if kind == 11 || (kind == 12 && i&1 == 1) {
+				b = 0xfd
+			}
+			bus.Poke(pc+i, uint8(b))
+		}
+	default:
+		for i := uint16(0); i < 2*span; i++ {
+			bus.Poke(pc+i, 0)
+		}
+	}
+	twinBus := bus.Fork("twin")
+	ctx, cancel := context.WithCancel(context.Background())
+	dev := &vLoopDev{bus: bus, at: at, cancel: cancel}
+	c1 := &CPU{States: s, Memory: dev, IO: dev}
+	c2 := &CPU{States: s, Memory: twinBus, IO: twinBus}
+	err := c1.Run(ctx)
+	vAssert("returns-ctx-error", vIsErrOf(err, ctx))
+	vAssert("cancelled-before-return", dev.cancelled)
+	// a whole number of Steps: the twin is stepped until it has made as many accesses
+	for i := 0; i < at+12 && twinBus.Len() < bus.Len(); i++ {
+		c2.Step()
+	}
+	vAssert("boundary-accesses", twinBus.Len() == bus.Len())
+	vAssert("boundary-state", c1.States == c2.States)
+	vAssert("boundary-trace", vTraceSeqEq(bus, twinBus))
+	vAssert("no-goroutine-left", vCancelReleased())
+	cancel()
+}
